@@ -73,6 +73,31 @@ pub fn num(x: f64) -> Value {
     }
 }
 
+/// number of events emitted so far (the watchdog's notion of progress)
+pub static PROGRESS: std::sync::atomic::AtomicU64 = std::sync::atomic::AtomicU64::new(0);
+
+/// A call of the library that never returns is data, like a panic: when a `record` run emits no event for `secs` seconds, the
+/// watchdog writes `<out>.hang` (how many events had been written) and ends the process with status 3.
+pub fn start_watchdog(out_path: String, secs: u64) {
+    std::thread::spawn(move || {
+        let (mut last, mut idle) = (u64::MAX, 0u64);
+        loop {
+            std::thread::sleep(std::time::Duration::from_secs(1));
+            let now = PROGRESS.load(std::sync::atomic::Ordering::Relaxed);
+            if now == last {
+                idle += 1;
+            } else {
+                last = now;
+                idle = 0;
+            }
+            if idle >= secs {
+                let _ = std::fs::write(format!("{out_path}.hang"), format!("{{\"ev\":\"hang\",\"events_written\":{now},\"idle_s\":{idle}}}\n"));
+                std::process::exit(3);
+            }
+        }
+    });
+}
+
 pub struct Out {
     w: Box<dyn Write>,
     pub lines: usize,
@@ -95,6 +120,7 @@ impl Out {
         Out { w: Box::new(std::io::sink()), lines: 0, mem: Some(vec![]) }
     }
     pub fn emit(&mut self, mut v: Value) {
+        PROGRESS.fetch_add(1, std::sync::atomic::Ordering::Relaxed);
         if INEXACT.with(|f| f.replace(false)) {
             v["inexact"] = serde_json::json!(true);
         }
@@ -104,6 +130,9 @@ impl Out {
         }
         serde_json::to_writer(&mut self.w, &v).unwrap();
         self.w.write_all(b"\n").unwrap();
+        // every event reaches the file at once: should a later call of the library never return, the watchdog ends the process and the
+        // trace up to that call is the evidence
+        self.w.flush().unwrap();
         self.lines += 1;
     }
     pub fn flush(&mut self) {
